@@ -85,6 +85,7 @@ pub fn c04_alphabet(n: usize, len: usize) -> Vec<Act> {
         for k in 0..3 {
             v.push(Act::IterDebug(k, s));
         }
+        v.push(Act::IntoIterClone(s));
     }
     for a in 0..=len {
         for b in a..=len {
@@ -432,6 +433,11 @@ pub fn c07_state<const N: usize>(recipe: &Recipe) -> Vec<Problem> {
         {
             let b = sut.bref();
             let loc = |e: &E| (e.0, sut.slot_of(e));
+            let via_ref: Vec<(u32, usize)> = (&*b).into_iter().map(loc).collect();
+            let via_iter: Vec<(u32, usize)> = b.iter().map(loc).collect();
+            if via_ref != via_iter {
+                out.push(pb(PKind::Views, format!("`for x in &buf` yields {:?} but iter() yields {:?}", via_ref, via_iter)));
+            }
             chk("front", 0, b.front().map(loc), want(0), &mut out);
             chk("back", 0, b.back().map(loc), if len > 0 { want(len - 1) } else { None }, &mut out);
             #[cfg(feature = "alloc")]
@@ -1009,6 +1015,9 @@ pub fn c12_check<const N: usize>(o: &Opts, rep: &mut Report) {
             continue;
         }
         let mut acts = vec![Act::CloneBuf, Act::ToVec, Act::IntoIter(Script::all_front(st.len + 1)), Act::IntoIter(Script::all_back(st.len + 1))];
+        for s in Script::all_up_to(st.len.min(3)) {
+            acts.push(Act::IntoIterClone(s));
+        }
         // clone_from: every destination state x every source layout
         for m in 0..=N {
             for rot in 0..N.max(1) {
